@@ -119,6 +119,7 @@ pub fn gen_plan(cx: &mut Ctx, o: &PlanOpts) -> Plan {
     let mut all: Vec<Rec> = Vec::new();
     let mut bounds = Vec::new();
     let mut metas = Vec::new();
+    let mut burst_plan = false;
     let pair_cap = effective(bufsize).saturating_sub(13).min(40);
     for i in 0..k {
         let id = gen_id(cx);
@@ -127,7 +128,18 @@ pub fn gen_plan(cx: &mut Ctx, o: &PlanOpts) -> Plan {
         let keep = if last { o.force_keep || cx.ch.chance(1, 2) } else { true };
         let mut flags = if cx.ch.chance(1, 3) { cx.ch.byte() & 0xfe } else { 0 };
         if keep { flags |= 1; }
-        let pairs = gen_pairs(cx, if tiny { 1 } else { 4 }, pair_cap, false);
+        let mut pairs = gen_pairs(cx, if tiny { 1 } else { 4 }, pair_cap, false);
+        // scale: with an ordinary buffer, sometimes a large environment (100..400 small variables, several times the
+        // buffer) that contains one pair close to the documented bound
+        if !tiny && bufsize >= 4096 && cx.ch.chance(1, 40) {
+            let n = cx.ch.range(100, 400);
+            pairs = (0..n).map(|j| (format!("HTTP_X_VAR_{j}").into_bytes(), gen_bytes(cx, (j * 7) % 23))).collect();
+            let big = cx.ch.range(1100, (effective(bufsize) - 13).min(6000));
+            let at = cx.ch.range(0, pairs.len());
+            let val = gen_bytes(cx, big - 10);
+            pairs.insert(at, (b"HTTP_X_BIG".to_vec(), val));
+            cx.probe("environment_larger_than_buffer");
+        }
         let start = all.len();
         let mut recs = Vec::new();
         let noise = if tiny { if cx.ch.chance(1, 20) { 1 } else { 0 } } else { o.noise };
@@ -164,7 +176,7 @@ pub fn gen_plan(cx: &mut Ctx, o: &PlanOpts) -> Plan {
             preamble_records(cx, &mut recs, id, role, flags, &pairs, noise, 24, true);
         }
         let mut srecs = Vec::new();
-        stream_records(cx, &mut srecs, id, role, noise, 24, true, Phase::Either);
+        crate::d1stream::stream_records_opts(cx, &mut srecs, id, role, noise, 24, true, Phase::Either, !tiny && k <= 4);
         let mut has_abort = false;
         if o.abort && cx.ch.chance(2, 3) {
             let at = cx.ch.range(0, srecs.len());
@@ -178,6 +190,17 @@ pub fn gen_plan(cx: &mut Ctx, o: &PlanOpts) -> Plan {
                 cx.probe("foreign_abort_inserted");
             }
             has_abort = true;
+        }
+        // scale: rarely a burst of 1100..3000 unknown-type records in the middle of the stream phase, on a connection
+        // whose buffer holds the whole burst (forced below)
+        if (o.either_noise || !o.closed_loop) && !tiny && !srecs.is_empty() && cx.ch.chance(1, 150) {
+            let n = cx.ch.range(1100, 3000);
+            let at = cx.ch.range(0, srecs.len());
+            let t = cx.ch.one_of(&[0u8, 12, 13, 127, 255]);
+            let b: Vec<Rec> = (0..n).map(|_| Rec::new(t, 0, Vec::new(), 0)).collect();
+            srecs.splice(at..at, b);
+            burst_plan = true;
+            cx.probe("burst_of_1100plus_reply_records");
         }
         recs.extend(srecs);
         junk_reserved(cx, &mut recs);
@@ -270,7 +293,7 @@ pub fn gen_plan(cx: &mut Ctx, o: &PlanOpts) -> Plan {
         // a buffer that can hold a maximum-size record whole (stale records skipped by the next request parser)
         cx.probe("buffer_holds_whole_huge_record");
         cx.ch.one_of(&[70000usize, 131072])
-    } else { bufsize };
+    } else if burst_plan { cx.ch.one_of(&[65536usize, 131072, 1 << 20]) } else if wire.len() > 300_000 { bufsize.max(cx.ch.one_of(&[4096usize, 8192, 70000])) } else { bufsize };
     let desc = {
         let recs: Vec<String> = all.iter().take(36).map(Rec::short).collect();
         format!("k={k} bufsize={bufsize} max_conns={max_conns} closed_loop={} segs={:?} records=[{}]", o.closed_loop,
@@ -1412,7 +1435,7 @@ pub const F_TRANSPORT: &[&str] = &["short_read", "read_pending_nodata", "read_pe
 pub const F_FLUSH: &[&str] = &["flush_pending", "spurious_child_poll"];
 pub const F_SPURIOUS: &[&str] = &["spurious_poll"];
 pub const F_INJECT: &[&str] = &["read_error", "eof_injected", "write_error", "zero_write", "flush_error"];
-pub const P_BASE: &[&str] = &["buffer_holds_whole_huge_record", "read_filled_buffer", "write_cut_in_header", "write_cut_at_seam", "write_cut_in_padding", "requests_2plus", "buffer_24", "fresh_waker_per_poll", "vectored_write_first_slice_only"];
+pub const P_BASE: &[&str] = &["buffer_holds_whole_huge_record", "read_filled_buffer", "write_cut_in_header", "write_cut_at_seam", "write_cut_in_padding", "requests_2plus", "buffer_24", "fresh_waker_per_poll", "vectored_write_first_slice_only", "burst_of_1100plus_reply_records", "environment_larger_than_buffer"];
 pub const P_C07: &[&str] = &["read_abandoned_while_pending", "keep_conn_reuse", "no_keep_conn_close", "handler_left_input_unread", "long_lived_connection", "connection_of_260plus_requests"];
 #[allow(dead_code)]
 pub const D2_FAULTS: &[&str] = &[
